@@ -82,17 +82,11 @@ def sym_mixture(c1=None, c2=None, nrtl=True, uniquac=False, name="symmix", **kw)
 
 def comp(p, typ="weight"):
     """Composition without running the [0,1] validator (used for inputs whose range is assumed)"""
-    c = Composition.__new__(Composition)
-    c.p = p
-    c.type = typ
-    return c
+    return bare(Composition, p=p, type=typ)
 
 
 def perm(v, units=None):
-    p = pv.Permeance.__new__(pv.Permeance)
-    p.value = v
-    p.units = units if units is not None else pv.Units.kg_m2_h_kPa
-    return p
+    return bare(pv.Permeance, value=v, units=units if units is not None else pv.Units.kg_m2_h_kPa)
 
 
 def assume_validator(patches):
@@ -182,10 +176,7 @@ class StubMembrane:
 def pervaporation(mixture, membrane=None):
     from pyvaporation.pervaporation.pervaporation import Pervaporation
 
-    p = Pervaporation.__new__(Pervaporation)
-    p.membrane = membrane if membrane is not None else StubMembrane(mixture)
-    p.mixture = mixture
-    return p
+    return bare(Pervaporation, membrane=membrane if membrane is not None else StubMembrane(mixture), mixture=mixture)
 
 
 def domain_T(T):
@@ -205,3 +196,18 @@ def w_of_x(x, M1, M2):
 def x_of_w(w, M1, M2):
     w, M1, M2 = lift(w), lift(M1), lift(M2)
     return (w / M1) / (w / M1 + (1 - w) / M2)
+
+
+def bare(cls, **fields):
+    """an attrs object built without running __init__ / __attrs_post_init__ (the harness supplies already-normalised fields):
+    every declared field first gets its declared default, so a field the harness does not know about is still present"""
+    import attr
+
+    o = cls.__new__(cls)
+    for f in (attr.fields(cls) if attr.has(cls) else ()):
+        if f.default is not attr.NOTHING:
+            d = f.default
+            object.__setattr__(o, f.name, d.factory() if isinstance(d, attr.Factory) and not d.takes_self else (None if isinstance(d, attr.Factory) else d))
+    for k, v in fields.items():
+        object.__setattr__(o, k, v)
+    return o
